@@ -149,6 +149,8 @@ def _row_origin(m, lp):
     from ..valueflow import as_map
     it = simp(lp.iter)
     desc = show(it)
+    while it[0] == "call" and it[1] in (("global", "enumerate"), ("global", "list"), ("global", "tuple")) and len(it[2]) == 1 and not it[3]:
+        it = it[2][0]           # `for r, rowdata in enumerate(rows)`: the same rows, numbered
     if it[0] == "comp":
         mm = as_map(it)
         if mm is None:
@@ -464,7 +466,7 @@ def _pattern_writer(ctx, rf, fn, sent):
     from ..odemodel import poly
     from ..valueflow import as_map
     W = (FILE, fn.lineno)
-    writes = [f for f in rf.facts if f.kind == "call" and f.target == "write" and f.value and "jac_pattern.dat" in show(f.value[1]) and f.value[3]]
+    writes = [f for f in rf.facts if f.kind == "call" and f.target in ("write", "write_text") and f.value and "jac_pattern.dat" in show(f.value[1]) and f.value[3]]
     if len(writes) != 1 or not any("jac_pattern" in show(g) for g, _ in writes[0].guards):
         ctx.missing("R5", "pattern-writer", W, "jac_pattern branch of TemplateLoader.render (one write to jac_pattern.dat under `if jac_pattern`) not found")
         return
@@ -600,6 +602,15 @@ def _loop_sites(ctx, label, rel, cfg, fname, field, lhs_pat):
         (ctx.bad if hits else ctx.missing)("R3", key, (rel, 0), f"{fname} has {len(hits)} loops writing {lhs_pat.split('[')[0].strip(chr(92))}[..], expected one")
         return
     it, flat, mm = hits[0]
+    FIELD = ("attr", ("attr", ("name", "ode"), "jac"), field)
+    if it[2] == ("call", ("name", "range"), (("filter", "length", FIELD, (), ()),), ()) and it[7] is None and it[1][0] == "name":
+        # index loop `for i in range(ode.jac.<field> | length)`: position i receives ode.jac.<field>[i]
+        idx = flat[int(mm.group(1))][1]
+        base, fs = J.unfilter(flat[int(mm.group(2))][1])
+        ok = idx == it[1] and base == ("item", FIELD, it[1]) and all(f[0] in ("stmwrap",) or (f[0] == "replace" and field == "vals") for f in fs)
+        ctx.check(ok, "R3", key, (rel, it[5]), f"entry n of ode.jac.{field} is written to position n (index loop over its length), unfiltered",
+                  expected=f"[i] = ode.jac.{field}[i]", found=f"[{J.show(idx)}] = {J.show(flat[int(mm.group(2))][1])}")
+        return
     if J.path(J.unfilter(it[2])[0]) != f"ode.jac.{field}" or it[2][0] != "attr" or it[7] is not None:
         ctx.bad("R3", key, (rel, it[5]), f"the loop filling this array iterates {J.show(it[2])}, not ode.jac.{field} itself",
                 expected=f"for x in ode.jac.{field}", found=J.show(it[2]))
@@ -811,6 +822,8 @@ def _split_args(code, i):
 
 T = FILE
 MUTANTS = [
+    {"name": "sparse-colvals-index-loop-shifted", "file": JAC, "old": "    {% for col in ode.jac.cols -%}\n        colvals[{{ loop.index0 }}] = {{ col }};\n    {% endfor %}\n",
+     "new": "    {% for i in range(ode.jac.cols | length) -%}\n        colvals[{{ i }}] = {{ ode.jac.cols[i - 1] }};\n    {% endfor %}\n", "rules": ["R3"]},
     {"name": "sentinel-class-constant-differs-from-the-table-cells", "edits": [
         {"file": T, "old": "    @dataclass\n    class GeneralInfo:\n", "new": "    _ZERO = \"0\"\n\n    @dataclass\n    class GeneralInfo:\n"},
         {"file": T, "old": "                if elem != \"0.0\":", "new": "                if elem != self._ZERO:"}], "rules": ["R2"]},
@@ -841,6 +854,10 @@ MUTANTS = [
     {"name": "nequations-macro", "file": MACROS, "old": "#define NEQUATIONS (NSPECIES + THERMAL)", "new": "#define NEQUATIONS (NSPECIES)", "rules": ["R4"]},
 ]
 BENIGN = [
+    {"name": "sparse-colvals-by-index-loop", "file": JAC, "old": "    {% for col in ode.jac.cols -%}\n        colvals[{{ loop.index0 }}] = {{ col }};\n    {% endfor %}\n",
+     "new": "    {% for i in range(ode.jac.cols | length) -%}\n        colvals[{{ i }}] = {{ ode.jac.cols[i] }};\n    {% endfor %}\n"},
+    {"name": "csr-rows-enumerated-slices", "file": T, "old": '        nnz = 0\n\n        for row in range(n_eqns):\n            spjacrptr.append(nnz)\n            for col in range(n_eqns):\n                elem = jacrhs[row * n_eqns + col]\n                if elem != "0.0":\n                    spjaccval.append(col)\n                    spjacdata.append(f"{elem}")\n                    nnz += 1\n        spjacrptr.append(nnz)\n',
+     "new": '        rows = [jacrhs[r * n_eqns : (r + 1) * n_eqns] for r in range(n_eqns)]\n        for r, rowdata in enumerate(rows):\n            spjacrptr.append(len(spjacdata))\n            for col, elem in enumerate(rowdata):\n                if elem != "0.0":\n                    spjaccval.append(col)\n                    spjacdata.append(elem)\n        nnz = len(spjacdata)\n        spjacrptr.append(nnz)\n'},
     {"name": "sentinel-as-named-class-and-module-constant", "edits": [
         {"file": T, "old": "    @dataclass\n    class GeneralInfo:\n", "new": "    _ZERO = \"0.0\"\n\n    @dataclass\n    class GeneralInfo:\n"},
         {"file": T, "old": "\nclass TemplateLoader:\n", "new": "\n_NO_TERM = \"0.0\"\n\n\nclass TemplateLoader:\n"},
